@@ -35,7 +35,9 @@ LocalEdits(u) ==
       [] u.k = "bool" -> {[u EXCEPT !.n = 1 - u.n], IntC(u.n)}
       [] u.k = "str"  -> {[u EXCEPT !.s = u.s \o "x"], [u EXCEPT !.s = u.s \o "\"'"],
                           [u EXCEPT !.s = u.s \o "é"], [u EXCEPT !.s = u.s \o "è"], [u EXCEPT !.s = u.s \o "?"],
-                          [u EXCEPT !.s = u.s \o "π"], [u EXCEPT !.s = u.s \o "ρ"], [u EXCEPT !.s = u.s \o "𝛑"]}
+                          [u EXCEPT !.s = u.s \o "π"], [u EXCEPT !.s = u.s \o "ρ"], [u EXCEPT !.s = u.s \o "𝛑"],
+                          \* the same text composed (U+00E9, above) and decomposed (e + U+0301), Kelvin sign (U+212A) vs K
+                          [u EXCEPT !.s = u.s \o "é"], [u EXCEPT !.s = u.s \o "K"], [u EXCEPT !.s = u.s \o "K"]}
       [] u.k = "binop" -> {[u EXCEPT !.s = IF u.s = "+" THEN "-" ELSE "+"]} \cup
                           (IF u.a[1] # u.a[2] THEN {[u EXCEPT !.a = <<u.a[2], u.a[1]>>]} ELSE {})
       [] u.k = "cmp"  -> {[u EXCEPT !.p = <<IF u.p[1] = ">" THEN ">=" ELSE ">">>]} \cup
